@@ -1793,9 +1793,12 @@ class ListProxy(list):
         for k, v in names.items():
             if v is object:
                 return k
-        for k, v in names.items():
-            if type(v) is type(object) and v == object:
-                return k
+        if isinstance(object, (int, float, complex)):
+            # (what pickle does not memoize; other objects are not compared:
+            # == need not give a truth value, e.g. for arrays)
+            for k, v in names.items():
+                if type(v) is type(object) and v == object:
+                    return k
         return None
 
     def __reduce_ex__(self, protocol):
